@@ -84,7 +84,7 @@ Proof. unfold pub_encode. now intros ->. Qed.
 Lemma int_row_UINT : int_row n_UINT = Some (false, 2%nat). Proof. reflexivity. Qed.
 Lemma int_row_UDINT : int_row n_UDINT = Some (false, 4%nat). Proof. reflexivity. Qed.
 Lemma fss_enc_latin1 : fss_enc = Some Latin1. Proof. reflexivity. Qed.
-Lemma stringn_enc_1 : stringn_enc 1 = Some Utf8. Proof. reflexivity. Qed.
+Lemma stringn_enc_1 : stringn_enc 1 = Some Latin1. Proof. reflexivity. Qed.
 
 Lemma int_encode_ok sg w z :
   int_in_range sg w z = true -> int_encode sg w (VInt z) = Ok (le_enc w z).
@@ -109,10 +109,7 @@ Proof.
 Qed.
 
 Lemma spec_chars_ok cw s bs : spec_chars cw s = Some bs -> bytes_ok bs = true.
-Proof.
-  unfold spec_chars. destruct (forallb (char_ok cw) s); [|discriminate]. intros H. injection H as <-.
-  induction s as [|c s IH]; [reflexivity|]. cbn [flat_map]. now rewrite bytes_ok_app, spec_le_ok, IH.
-Qed.
+Proof. apply spec_chars_bytes_ok. Qed.
 
 Lemma repeat0_ok n : bytes_ok (repeat 0 n) = true.
 Proof. induction n; cbn; auto. Qed.
@@ -124,8 +121,8 @@ Definition ENC (t : ty) : Prop :=
   encode t v = Ok bs /\ as_member t (encode t) v = Ok bs /\ bytes_ok bs = true
   /\ (forall w, sfixed t = Some w -> length bs = w).
 
-Lemma as_member_plain t v : is_nbytes t = false -> as_member t (encode t) v = encode t v.
-Proof. destruct t; cbn; try reflexivity; discriminate. Qed.
+Lemma as_member_plain t v : as_member t (encode t) v = encode t v.
+Proof. reflexivity. Qed.
 
 Ltac enc_split := split; [|split; [|split]].
 
@@ -174,21 +171,36 @@ Section WithFloat.
   Qed.
 End WithFloat.
 
+Lemma int_row_UDINT' : int_row n_UDINT = Some (false, 4%nat). Proof. reflexivity. Qed.
 Lemma enc_TDateTime : ENC TDateTime.
-Proof. intros _ v bs _ Hd. cbn [enc_dev] in Hd. discriminate. Qed.
+Proof.
+  intros _ v bs Hs _. cbn [spec_encode] in Hs.
+  destruct v as [| | | | | |l|l| |]; try discriminate. destruct l as [|[| |a| | | | | | |] [|[| |b| | | | | | |] [|? ?]]]; try discriminate.
+  unfold spec_datetime_enc in Hs.
+  destruct (spec_int 4 false a) as [pa|] eqn:Ha; [|discriminate].
+  destruct (spec_int 2 false b) as [pb|] eqn:Hb; [|discriminate]. apply Some_inj in Hs. subst bs.
+  assert (He : encode TDateTime (VTuple [VInt a; VInt b]) = Ok (pa ++ pb)).
+  { cbn [encode]. unfold datetime_encode, datetime_encode2. cbn [py_iter bind fst snd].
+    unfold named_int_encode. rewrite int_row_UDINT', int_row_UINT.
+    rewrite (spec_int_encode false 4 a pa ltac:(lia) Ha). cbn [bind].
+    rewrite (spec_int_encode false 2 b pb ltac:(lia) Hb). reflexivity. }
+  enc_split; [exact He|exact He| |].
+  - now rewrite bytes_ok_app, (spec_int_ok _ _ _ _ Ha), (spec_int_ok _ _ _ _ Hb).
+  - cbn [sfixed]. intros w H. injection H as <-. rewrite app_length, (spec_int_length _ _ _ _ Ha), (spec_int_length _ _ _ _ Hb). reflexivity.
+Qed.
 
 Lemma enc_TStr lsg lw e : ENC (TStr lsg lw e).
 Proof.
   intros Hw v bs Hs _. cbn [wire_ty] in Hw. cbn [spec_encode] in Hs.
   destruct (char_width e) as [cw|] eqn:Hcw; [|lia]. destruct lsg; [cbn in Hw; lia|].
   unfold spec_str_enc in Hs. destruct v; try discriminate.
-  destruct (spec_int lw false (blen s)) as [p|] eqn:Hp; [|discriminate].
-  destruct (spec_chars cw s) as [d|] eqn:Hd; [|discriminate]. injection Hs as <-.
+  destruct (spec_chars cw s) as [d|] eqn:Hd; [|discriminate].
+  destruct (spec_int lw false (blen d / Z.of_nat cw)) as [p|] eqn:Hp; [|discriminate]. apply Some_inj in Hs. subst bs.
   assert (Hlw : (0 < lw)%nat) by lia.
   assert (He : encode (TStr false lw e) (VStr s) = Ok (p ++ d)).
-  { cbn [encode]. unfold str_encode. apply pub_encode_ok. cbn [py_len bind].
-    change (zlen s) with (blen s). rewrite (spec_int_encode _ _ _ _ Hlw Hp). cbn [bind].
-    rewrite (text_encode_spec _ _ _ _ Hcw Hd). reflexivity. }
+  { cbn [encode]. unfold str_encode. apply pub_encode_ok.
+    rewrite (text_encode_spec _ _ _ _ Hcw Hd). cbn [bind]. rewrite (char_width_size _ _ Hcw).
+    change (zlen d) with (blen d). rewrite (spec_int_encode _ _ _ _ Hlw Hp). reflexivity. }
   enc_split; [exact He|exact He| |].
   - rewrite bytes_ok_app. now rewrite (spec_int_ok _ _ _ _ Hp), (spec_chars_ok _ _ _ Hd).
   - cbn [sfixed]. discriminate.
@@ -200,16 +212,16 @@ Proof. intros H. unfold named_int_encode. rewrite int_row_UINT. apply spec_int_e
 
 Lemma enc_TStringN : ENC TStringN.
 Proof.
-  intros _ v bs Hs Hd. cbn [spec_encode] in Hs. unfold spec_stringn_enc in Hs. destruct v; try discriminate.
-  destruct (spec_int 2 false (blen s)) as [p|] eqn:Hp; [|discriminate].
-  destruct (spec_chars 1 s) as [d|] eqn:Hc; [|discriminate]. injection Hs as <-.
-  cbn [enc_dev] in Hd. destruct (existsb (fun c => 128 <=? c) s) eqn:Hx; [discriminate|].
+  intros _ v bs Hs _. cbn [spec_encode] in Hs. unfold spec_stringn_enc in Hs. destruct v; try discriminate.
+  destruct (spec_chars 1 s) as [d|] eqn:Hc; [|discriminate].
+  destruct (spec_int 2 false (blen d)) as [p|] eqn:Hp; [|discriminate]. apply Some_inj in Hs. subst bs.
   assert (He : encode TStringN (VStr s) = Ok (spec_le 2 1 ++ p ++ d)).
   { cbn [encode]. unfold stringn_encode, stringn_encode_cs. cbn [as_int]. rewrite stringn_enc_1.
+    assert (Hcw : char_width Latin1 = Some 1%nat) by reflexivity.
+    rewrite (text_encode_spec _ _ _ _ Hcw Hc). cbn [bind].
     assert (H1 : spec_int 2 false 1 = Some (spec_le 2 1)) by reflexivity.
-    rewrite (named_int_encode_UINT _ _ H1). cbn [bind py_len]. change (zlen s) with (blen s).
-    rewrite (named_int_encode_UINT _ _ Hp). cbn [bind].
-    rewrite (text_encode_utf8_ascii _ _ Hc Hx). reflexivity. }
+    rewrite (named_int_encode_UINT _ _ H1). cbn [bind]. rewrite Z.div_1_r. change (zlen d) with (blen d).
+    rewrite (named_int_encode_UINT _ _ Hp). reflexivity. }
   enc_split; [exact He|exact He| |].
   - assert (Hb : bytes_ok (spec_le 2 1 ++ p ++ d) = true).
     { rewrite !bytes_ok_app, spec_le_ok, (spec_int_ok _ _ _ _ Hp), (spec_chars_ok _ _ _ Hc). reflexivity. }
@@ -339,20 +351,18 @@ Lemma spec_encode_all_plain e :
 Proof. destruct e; try reflexivity; discriminate. Qed.
 
 Lemma enc_dev_arr_plain n e v :
-  is_bitstr e = false -> is_nbytes e = false ->
+  is_bitstr e = false ->
   enc_dev (TArrFixed n e) v = match v with VList l => first_dev (enc_dev e) (firstn n l) | _ => 0 end.
 Proof. destruct e; try reflexivity; discriminate. Qed.
 
 Lemma enc_dev_all_plain e v :
-  is_bitstr e = false -> is_nbytes e = false ->
+  is_bitstr e = false ->
   enc_dev (TArrAll e) v = match v with VList l => first_dev (enc_dev e) l | _ => 0 end.
 Proof. destruct e; try reflexivity; discriminate. Qed.
 
 Lemma bits_width_plain e : is_bitstr e = false -> bits_width e = None.
 Proof. destruct e; try reflexivity; discriminate. Qed.
 
-Lemma is_instance_nbytes e : is_instance e = is_nbytes e.
-Proof. destruct e; reflexivity. Qed.
 
 Lemma elem_ok_of_ENC e l :
   ENC e -> wire_ty e = true ->
@@ -366,15 +376,13 @@ Lemma enc_TArrFixed_plain n e :
   is_bitstr e = false -> ENC e -> ENC (TArrFixed n e).
 Proof.
   intros Hnb He Hw v bs Hs Hd. cbn [wire_ty] in Hw. apply andb_prop in Hw as [Hwe _].
-  destruct (is_nbytes e) eqn:Hny.
-  { cbn [enc_dev] in Hd. rewrite Hny in Hd. discriminate. }
   rewrite spec_encode_arr_plain in Hs by exact Hnb. rewrite enc_dev_arr_plain in Hd by assumption.
   destruct v; try discriminate. destruct (n <=? length l)%nat eqn:Hn; [|discriminate]. apply Nat.leb_le in Hn.
   destruct (encode_items_spec _ _ _ _ l (elem_ok_of_ENC e l He Hwe) n 0%nat bs ltac:(lia) Hs Hd) as (H1 & H2 & H3).
   assert (Henc : encode (TArrFixed n e) (VList l) = Ok bs).
   { cbn [encode]. unfold array_encode. cbn [py_len bind].
     destruct (zlen l <? Z.of_nat n) eqn:E; [unfold zlen in E; lia|]. cbn [bind].
-    rewrite is_instance_nbytes, Hny, (bits_width_plain e Hnb). now rewrite H1. }
+    rewrite (bits_width_plain e Hnb). now rewrite H1. }
   enc_split; [exact Henc|exact Henc|exact H2|].
   cbn [sfixed]. intros w Hw. destruct (sfixed e) as [we|] eqn:Hf; [|discriminate]. injection Hw as <-. now apply H3.
 Qed.
@@ -383,15 +391,13 @@ Lemma enc_TArrAll_plain e :
   is_bitstr e = false -> ENC e -> ENC (TArrAll e).
 Proof.
   intros Hnb He Hw v bs Hs Hd. cbn [wire_ty] in Hw. apply andb_prop in Hw as [Hw _]. apply andb_prop in Hw as [Hwe _].
-  destruct (is_nbytes e) eqn:Hny.
-  { cbn [enc_dev] in Hd. rewrite Hny in Hd. discriminate. }
   rewrite spec_encode_all_plain in Hs by exact Hnb. rewrite enc_dev_all_plain in Hd by assumption.
   destruct v; try discriminate.
   rewrite <- (firstn_all l) in Hs, Hd.
   destruct (encode_items_spec _ _ _ _ l (elem_ok_of_ENC e l He Hwe) (length l) 0%nat bs ltac:(lia) Hs Hd) as (H1 & H2 & H3).
   assert (Henc : encode (TArrAll e) (VList l) = Ok bs).
   { cbn [encode]. unfold array_encode. cbn [py_len bind].
-    rewrite is_instance_nbytes, Hny, (bits_width_plain e Hnb). unfold zlen. rewrite Nat2Z.id. now rewrite H1. }
+    rewrite (bits_width_plain e Hnb). unfold zlen. rewrite Nat2Z.id. now rewrite H1. }
   enc_split; [exact Henc|exact Henc|exact H2|].
   cbn [sfixed]. discriminate.
 Qed.
@@ -448,7 +454,7 @@ Proof. destruct c; [lia|reflexivity]. Qed.
 Lemma array_encode_bits fixed w bl m :
   (0 < w)%nat -> length bl = (m * (8 * w))%nat ->
   match fixed with Some n => (n <= length bl)%nat | None => True end ->
-  array_encode fixed (Some w) false (as_member (TBits w) (encode (TBits w))) (VList (map VBool bl))
+  array_encode fixed (Some w) (as_member (TBits w) (encode (TBits w))) (VList (map VBool bl))
   = Ok (spec_bits (m * w) bl).
 Proof.
   intros Hw Hl Hfix. unfold array_encode. cbn [py_len bind]. unfold zlen. rewrite map_length.
@@ -476,11 +482,11 @@ Proof.
   destruct (bools_of l) as [bl|] eqn:Hb; [|discriminate].
   destruct (n * (8 * w) <=? length bl)%nat eqn:Hn; [|discriminate].
   apply bools_of_vbools in Hb. subst l.
-  cbn [enc_dev is_nbytes] in Hd. rewrite map_length in Hd.
+  cbn [enc_dev] in Hd. rewrite map_length in Hd.
   destruct (length bl =? n * (8 * w))%nat eqn:Hl; [|discriminate]. apply Nat.eqb_eq in Hl.
   rewrite <- Hl, firstn_all in Hs. injection Hs as <-.
   assert (Henc : encode (TArrFixed n (TBits w)) (VList (map VBool bl)) = Ok (spec_bits (n * w) bl)).
-  { cbn [encode bits_width is_instance]. apply array_encode_bits; [exact Hw'|exact Hl|]. rewrite Hl. nia. }
+  { cbn [encode bits_width]. apply array_encode_bits; [exact Hw'|exact Hl|]. rewrite Hl. nia. }
   enc_split; [exact Henc|exact Henc| |].
   - apply spec_bits_ok. lia.
   - cbn [sfixed]. intros w0 H. injection H as <-. apply spec_bits_length.
@@ -500,7 +506,7 @@ Proof.
   { rewrite Hl. replace (m * (8 * w))%nat with (m * w * 8)%nat by lia. now rewrite Nat.div_mul by lia. }
   rewrite H8 in Hs. injection Hs as <-.
   assert (Henc : encode (TArrAll (TBits w)) (VList (map VBool bl)) = Ok (spec_bits (m * w) bl)).
-  { cbn [encode bits_width is_instance]. now apply array_encode_bits. }
+  { cbn [encode bits_width]. now apply array_encode_bits. }
   enc_split; [exact Henc|exact Henc| |].
   - apply spec_bits_ok. lia.
   - cbn [sfixed]. discriminate.
@@ -563,6 +569,14 @@ Proof.
       injection H as <-. rewrite app_length, (Hlen wt eq_refl), (Hlen' wr eq_refl). reflexivity.
 Qed.
 
+Lemma spec_struct_seq_length (sms : list (key * (val -> option bytes))) l bs :
+  spec_struct_seq sms l = Some bs -> length l = length sms.
+Proof.
+  revert l bs. induction sms as [|[k f] sms IH]; intros [|x l] bs H; cbn [spec_struct_seq] in H; try discriminate; [reflexivity|].
+  destruct (f x); [|discriminate]. destruct (spec_struct_seq sms l) as [b2|] eqn:Hb; [|discriminate].
+  cbn [length]. f_equal. eapply IH; eassumption.
+Qed.
+
 Lemma enc_TStruct k ms : Forall (fun m : key * ty => ENC (snd m)) ms -> ENC (TStruct k ms).
 Proof.
   intros Hall Hw v bs Hs Hd. destruct k; try discriminate Hw.
@@ -571,7 +585,9 @@ Proof.
   assert (H : struct_encode_inner (enc_ms ms) v = Ok bs /\ bytes_ok bs = true
               /\ (forall w, sum_widths (map (fun m : key * ty => sfixed (snd m)) ms) = Some w -> length bs = w)).
   { destruct v; try discriminate.
-    - cbn [struct_encode_inner py_iter bind]. now apply struct_seq_spec.
+    - cbn [struct_encode_inner py_iter bind]. pose proof (spec_struct_seq_length _ _ _ Hs) as Hl.
+      unfold enc_ms, senc_ms in *. rewrite map_length in *. rewrite Hl, Nat.ltb_irrefl.
+      fold (enc_ms ms). fold (senc_ms ms) in Hs. now apply struct_seq_spec.
     - cbn [struct_encode_inner]. now apply struct_dict_spec. }
   destruct H as (He & Hok & Hlen).
   assert (Henc : encode (TStruct SPlain ms) v = Ok bs).
@@ -776,7 +792,7 @@ Qed.
 
 Lemma tmpl_inside ms bits priv size : tmpl_ok ms bits priv size = true -> forallb (inside size) ms = true.
 Proof.
-  unfold tmpl_ok. intros H. apply andb_prop in H as [H _]. apply andb_prop in H as [H _].
+  unfold tmpl_ok. intros H. apply andb_prop in H as [H _]. apply andb_prop in H as [H _]. apply andb_prop in H as [H _]. apply andb_prop in H as [H _].
   destruct (all_some (map (extent_of size) ms)) as [exts|] eqn:E; [|discriminate]. now apply (tmpl_inside_aux size ms exts).
 Qed.
 
@@ -808,7 +824,7 @@ Proof.
   { apply bytes_ok_by_nth. intros j. rewrite P2, nth_zeros. apply step_fold_range; [|lia].
     eapply Forall_impl; [|exact M2]. intros p [_ H]. exact H. }
   destruct (stag_bits_spec bits d bv buf0 Hbv Hok0) as (buf' & B1 & B2 & B3 & B4).
-  { rewrite P1. unfold tmpl_ok in Htm. apply andb_prop in Htm as [Htm _]. apply andb_prop in Htm as [_ Hb].
+  { rewrite P1. unfold tmpl_ok in Htm. apply andb_prop in Htm as [Htm _]. apply andb_prop in Htm as [Htm _]. apply andb_prop in Htm as [Htm _]. apply andb_prop in Htm as [_ Hb].
     rewrite forallb_forall in Hb. apply forallb_forall. intros b Hin. specialize (Hb b Hin).
     apply andb_prop in Hb as [Hb _]. exact Hb. }
   assert (Hbs : spec_image size ps bv = buf').
